@@ -14,6 +14,7 @@ RULE = ("case = (data family exact-Kruskal (4 holders) / noisy-dense (dense+spar
         "eigenvalues differ by >= 2 percent); non-trivial = I_n >= 2; distinct = hash of case")
 ANCHORS = ["tensor:tensor.nvecs", "sptensor:sptensor.nvecs", "ktensor:ktensor.nvecs", "ttensor:ttensor.nvecs"]
 EXHAUSTIVE = {"quick": {"(n, r) pairs for every generated shape": "complete"}, "thorough": {"(n, r) pairs for every generated shape": "complete"}}
+NPINT_ARGS = True     # a quarter of the cases pass their integer arguments as NumPy integers (core.Ctx.begin)
 WATCHDOG = {"quick": 600, "thorough": 3000}
 
 
